@@ -437,14 +437,27 @@ Proof.
   intros H; inv H. cbn. destruct (mreq P D s); cbn; repeat split.
 Qed.
 
-(* a checkpoint processed with the flag set takes the checkpoint and starts the grace sleep; without the flag it just returns *)
+(* a checkpoint (outside a bundle) takes the checkpoint -- also after clear_checkpoint: an explicit checkpoint
+   re-establishes resumability --, so the cache is empty afterwards; with the flag set it starts the grace sleep,
+   without it it just returns *)
 Theorem checkpoint_honours_deferred (s : st) x :
   mcmd x = CCheckpoint -> any_bundling P D s = false ->
-  exec_cmd P D dev s x =
-  (reset_checkpoint P D s, if deferred P D s then Susp KCkptSleep else Done (RVal VNone), []).
+  exists s1,
+    exec_cmd P D dev s x = (s1, if deferred P D s then Susp KCkptSleep else Done (RVal VNone), []) /\
+    cache P D s1 = Some [] /\ deferred P D s1 = deferred P D s /\ state P D s1 = state P D s /\
+    rewindable P D s1 = rewindable P D s /\ plans P D s1 = plans P D s /\ resps P D s1 = resps P D s.
 Proof.
   intros Ec Hb. unfold exec_cmd. rewrite Ec, Hb.
-  destruct (reset_checkpoint_spec P D s) as (_ & _ & _ & Q4 & _). rewrite Q4. destruct (deferred P D s); reflexivity.
+  set (s0 := match cache P D s with None => set_cache P D s (Some []) | Some _ => s end).
+  assert (T0 : state P D s0 = state P D s /\ rewindable P D s0 = rewindable P D s /\ deferred P D s0 = deferred P D s /\
+               plans P D s0 = plans P D s /\ resps P D s0 = resps P D s /\ reset_spec (cache P D s0) = Some [])
+    by (unfold s0; destruct (cache P D s) eqn:Ecs; cbn; rewrite ?Ecs; repeat split).
+  destruct T0 as (T1 & T2 & T3 & T4 & T5 & T6).
+  destruct (reset_checkpoint_spec P D s0) as (Q1 & Q2 & Q3 & Q4 & _).
+  exists (reset_checkpoint P D s0). rewrite Q4, T3. split; [destruct (deferred P D s); reflexivity|].
+  rewrite Q1, Q2, Q3, T1, T2, T6. repeat split; auto.
+  - unfold reset_checkpoint. destruct (cache P D s0); cbn; exact T4.
+  - unfold reset_checkpoint. destruct (cache P D s0); cbn; exact T5.
 Qed.
 
 (* an accepted hard pause request (also reached from the `pause` message and from the end of the grace sleep) *)
